@@ -51,6 +51,7 @@ def gen_plan(seed, tier="quick", variant=None):
         "client": {"timeout_ms": timeout_ms, "discover": rng.random() < 0.5, "retry": [round(rng.choice([0.01, 0.05, 0.2]), 3) for _ in range(3)],
                    "disconnect_on_timeout": rng.random() < 0.4, "client_id": rng.choice(["sim", "", "kläger-ü", "x" * 40])},
         "connect_timeout": rng.choice([0.5, 2.0]),
+        "late_timers": rng.choice([0.0, 0.0, 0.0, 0.002, 0.03]),
         "close_lat": [0.0, rng.choice([0.001, 0.001, 0.02, 0.08])],
         "warm": rng.random() < 0.6 or variant == "close_refresh",
         "coordinators": {g: rng.randint(1, nb) for g in GROUPS},
@@ -368,6 +369,8 @@ def _run(w, plan):
                                 break
                     except Exception as e:
                         rec.setdefault("iter_errors", []).append(type(e).__name__)
+            if rec["kind"] == "metadata_all" and wd.ok and client.clients is not None:
+                rec["clients_after"] = sorted(client.clients)  # right after the merge, before anything else can run
             rec["t_done"] = wd.t
             rec["seq_done"] = wd.seq
             rec["timers_at_done"] = len(reactor.pending("client.py"))
@@ -389,6 +392,9 @@ def _run(w, plan):
     if cfg["warm"]:
         d0 = client.load_metadata_for_topics()
         d0.addErrback(lambda f: None)
+        for g in GROUPS:
+            d0.addBoth(lambda _r, g=g: client.load_coordinator_for_group(g))
+            d0.addErrback(lambda f: None)
         d0.addBoth(lambda _r: sim.after(0.2, start_workload))
         real_match = cl._match_rule
 
@@ -443,7 +449,7 @@ def _run(w, plan):
         res.harness_error = "warm-up never finished"
         return w.finish()
     run_until(state["t0"] + plan["t_end"] + 0.001)
-    tail = sim.now + max(40.0, 4 * timeout + 36.0)
+    tail = sim.now + max(45.0, 4 * timeout + 40.0)
     while sim.now < tail and not sim.overrun and not sim.livelock and res.harness_error is None:
         run_until(sim.now + 5.0)
         if all(c["w"] is None or c["w"].fires for c in calls.values()) and not reactor.pending("client.py"):
@@ -518,14 +524,14 @@ def _oracles(w, plan, res, client, calls, state, cache_versions, unresolved, tim
         wd = c["w"]
         if wd is None or not wd.fires or c["after_close"]:
             continue
-        if c["kind"] not in APIKEY or not cfg["warm"]:
+        if (c["kind"] not in APIKEY and c["kind"] not in ("heartbeat", "join")) or not cfg["warm"]:
             continue
         o = c["o"]
         # all payloads routable from the cache as it stood at call time, and no metadata traffic needed
         cv = cache_versions[c["cache_at_call"]] if 0 <= c["cache_at_call"] < len(cache_versions) else None
         if cv is None:
             continue
-        if c["kind"] in ("offset_fetch", "offset_commit"):
+        if c["kind"] in ("offset_fetch", "offset_commit", "heartbeat", "join"):
             routable = cv[2].get(o["group"]) is not None
         else:
             routable = all(cv[1].get(tuple(tp)) is not None for tp in o["tps"])
@@ -534,11 +540,13 @@ def _oracles(w, plan, res, client, calls, state, cache_versions, unresolved, tim
         if c["kind"] in ("produce", "fetch") and not c["versions_known"]:
             continue  # version discovery (its own, separately bounded requests) precedes the broker request
         res.oblige("C11")
-        limit = c["t"] + timeout
-        if c["kind"] == "fetch":
-            pass
+        bound = max(timeout, 35.0) if c["kind"] == "join" else timeout  # the stated longer minimum for group joins
+        limit = c["t"] + bound + cfg.get("late_timers", 0.0)
         if wd.t > limit + 1e-6:
-            res.violate("C11", "C11:resolved-later-than-the-timeout", "%s call %d issued %.4f resolved %.4f, timeout %.3f" % (c["kind"], c["id"], c["t"], wd.t, timeout))
+            res.violate("C11", "C11:resolved-later-than-the-timeout%s" % (":group-join" if c["kind"] == "join" else ""),
+                        "%s call %d issued %.4f resolved %.4f, bound %.3f" % (c["kind"], c["id"], c["t"], wd.t, bound))
+        elif c["kind"] == "join":
+            res.probe("join_bounded_by_35s_minimum")
     # ---------------- C07: routing and accounting ----------------
     for c in calls.values():
         if c["kind"] not in APIKEY or c["w"] is None or not c["w"].fires or c["after_close"] or garbage_used:
@@ -775,8 +783,16 @@ def _check_c08(w, res, client, calls, state):
     fc = state.get("final_cache")
     if fc is None:
         return
+    timeout = w.cfg["client"]["timeout_ms"] / 1000.0
+    wrote_at = {}
+    for c_ in net.conns:
+        for frame, t in client_frames(c_):
+            if len(frame) >= 8:
+                import struct as _st
+                wrote_at[(c_.cid, _st.unpack(">i", frame[4:8])[0])] = t
     metas = [e for e in cl.reqlog if e["key"] == kwire.METADATA and e.get("resp_body") is not None and e.get("delivered_seq") is not None
-             and e.get("act") not in ("garbage", "cut_mid") and e["delivered_seq"] < fc["seq"]]
+             and e.get("act") not in ("garbage", "cut_mid") and e["delivered_seq"] < fc["seq"]
+             and e["delivered_t"] - wrote_at.get((e["cid"], e["corr"]), e["delivered_t"]) < timeout - 1e-9]
     last_for_topic = {}
     for e in sorted(metas, key=lambda e: e["delivered_seq"]):
         for t in e["resp_body"]["topics"]:
@@ -809,25 +825,21 @@ def _check_c08(w, res, client, calls, state):
                 break
         if name in fc["errors"] and fc["errors"][name] != t["error"]:
             res.violate("C08", "C08:cached-topic-error-differs", "topic %s: cache %r answer %r" % (name, fc["errors"][name], t["error"]))
-    # full refresh: connections to brokers missing from the last full answer were closed by the client
-    full = [e for e in metas if not e["body"]["topics"] and e["resp_body"]["brokers"]]
-    if full:
-        last_full = full[-1]
-        nodes = set(b["node"] for b in last_full["resp_body"]["brokers"])
-        # brokers learnt later (coordinator lookups) may legitimately be known in addition
-        later = set()
-        for e in cl.reqlog:
-            if e["key"] in (kwire.FIND_COORDINATOR, kwire.METADATA) and e.get("delivered_seq") is not None and e["delivered_seq"] > last_full["delivered_seq"] and e.get("resp_body"):
-                if e["key"] == kwire.FIND_COORDINATOR:
-                    later.add(e["resp_body"]["node"])
-                else:
-                    later.update(b["node"] for b in e["resp_body"]["brokers"])
+    # full refresh: broker clients for brokers missing from the answer are gone the moment the refresh completes
+    for c in calls.values():
+        if c["kind"] != "metadata_all" or "clients_after" not in c:
+            continue
+        wd = c["w"]
+        ans = [e for e in metas if c["seq"] <= e["delivered_seq"] <= wd.seq and not e["body"]["topics"]]
+        if len(ans) != 1 or not ans[0]["resp_body"]["brokers"]:
+            continue
+        nodes = set(b["node"] for b in ans[0]["resp_body"]["brokers"])
         res.oblige("C08")
-        kept = [n for n in fc["clients"] if n not in nodes and n not in later]
-        # only brokers the client had a client object for *before* that answer count
+        kept = [n for n in c["clients_after"] if n not in nodes]
         if kept:
-            open_conns = [c for c in net.conns if c.pid == "p0" and not c.client_lost and c.opened_at <= last_full.get("delivered_t", 0)]
-            res.violate("C08", "C08:connection-to-removed-broker-kept", "brokers %r are absent from the last full refresh but still have broker clients" % kept)
+            res.violate("C08", "C08:connection-to-removed-broker-kept", "full refresh answered brokers %r; broker clients for %r were kept" % (sorted(nodes), kept))
+        else:
+            res.probe("full_refresh_checked")
 
 
 def _check_c04_fields(w, res, calls, written, APIKEY):
